@@ -35,7 +35,7 @@ COMPONENTS = {
     'real': ['mapproxy.cache.compact (CompactCacheV1/V2, BundleV1/V2, index/data classes)',
              'mapproxy.script.defrag.defrag_compact_cache', 'mapproxy.util.lock.FileLock (bundle lock)',
              'mapproxy.util.fs.write_atomic', 'glob/os.walk (stdlib, over SimFS)', 'CPython io buffering'],
-    'stub': ['file system + flock (SimFS)', 'scheduler choice (concurrent configuration)', 'clock'],
+    'stub': ['file system + flock (SimFS)', 'scheduler choice (concurrent configuration; in the threads mode also between statements of compact.py)', 'clock (may step forward while writers work)'],
     'independent_oracle': ['checks/bundleparse.py (bundle reader written from the format description)'],
 }
 ASSUMPTIONS = [
